@@ -1,1 +1,296 @@
-"""E2 - real-backend harness (filled in later)."""
+"""E2 - the generated Parallel cases of C01 / C04 / C16 on the REAL backends (sequential, threading,
+loky, multiprocessing): uncontrolled schedules perturbed by drawn task sleeps.  Tasks log their own
+start/end with O_APPEND single writes (vf.tasks.rtask), which gives exactly-once counts."""
+
+import gc
+import os
+import signal
+import warnings
+
+from hypothesis import strategies as st
+
+from ..core import Inconclusive, Violation
+
+WATCHDOG = 120.0
+
+
+class _Hang(BaseException):
+    pass
+
+
+def _alarm(signum, frame):
+    raise _Hang()
+
+
+def _guard(fn, what):
+    """Run fn under a watchdog far above the normal latency (the statement says the call terminates)."""
+    signal.signal(signal.SIGALRM, _alarm)
+    signal.setitimer(signal.ITIMER_REAL, WATCHDOG, 5.0)
+    try:
+        try:
+            return "ok", fn()
+        finally:
+            signal.setitimer(signal.ITIMER_REAL, 0)
+    except _Hang:
+        raise Violation("%s did not return within %.0f s" % (what, WATCHDOG), signature=["real-hang"])
+    except Exception as e:
+        return "raise", e
+
+
+def _configs(backends, return_as=("list",)):
+    return st.fixed_dictionaries({
+        "mode": st.just("real"),
+        "backend": st.sampled_from(backends),
+        "n_jobs": st.sampled_from([2, 2, 3, 4]),
+        "batch_size": st.sampled_from([1, 1, 2, 3, 7, "auto"]),
+        "pre_dispatch": st.sampled_from(["all", 1, 3, "n_jobs", "2*n_jobs", "1.5*n_jobs"]),
+        "return_as": st.sampled_from(list(return_as)),
+        "managed": st.booleans(),
+    })
+
+
+def _parallel(spec):
+    from joblib import Parallel
+    kw = dict(n_jobs=1 if spec["backend"] == "sequential" else spec["n_jobs"], batch_size=spec["batch_size"],
+              pre_dispatch=spec["pre_dispatch"], return_as=spec["return_as"])
+    if spec["backend"] != "sequential":
+        kw["backend"] = spec["backend"]
+    return Parallel(**kw)
+
+
+def _items(call, base, logpath, as_generator):
+    from joblib import delayed
+
+    from vf import tasks
+    sleeps = call.get("sleeps") or [0]
+    fail = {int(k): v for k, v in call.get("fail", {}).items()}
+    lst = [delayed(tasks.rtask)(base + i, sleeps[i % len(sleeps)], logpath, fail.get(i)) for i in range(call["n"])]
+    return (x for x in lst) if as_generator else lst
+
+
+def _exec_counts(logpath):
+    counts = {}
+    try:
+        with open(logpath) as f:
+            for ln in f.read().splitlines():
+                k, idx = ln.split()[:2]
+                if k == "E":
+                    counts[int(idx)] = counts.get(int(idx), 0) + 1
+    except OSError:
+        pass
+    return counts
+
+
+def _where(spec, ci, call):
+    return "real backend=%s n_jobs=%s batch_size=%r pre_dispatch=%r return_as=%s managed=%s call %d/%d n=%d sleeps=%r fail=%r" % (
+        spec["backend"], spec["n_jobs"], spec["batch_size"], spec["pre_dispatch"], spec["return_as"], spec["managed"], ci + 1,
+        len(spec["calls"]), call["n"], call.get("sleeps"), call.get("fail"))
+
+
+# ---- C01 -----------------------------------------------------------------------------------------
+
+def c01_strategy(ctx):
+    call = st.fixed_dictionaries({"n": st.sampled_from([0, 1, 2, 3, 5, 8, 13, 21, 40]) | st.integers(0, 40),
+                                  "sleeps": st.lists(st.sampled_from([0, 0, 1, 3, 10]), min_size=1, max_size=5),
+                                  "gen_input": st.booleans()})
+    base = _configs(["sequential", "threading", "threading", "loky", "loky", "multiprocessing"], ("list", "list", "generator"))
+    return st.tuples(base, st.lists(call, min_size=1, max_size=2)).map(lambda t: {**t[0], "calls": t[1]}).filter(
+        lambda s: not (s["backend"] == "multiprocessing" and s["return_as"] != "list"))
+
+
+def run_c01(spec):
+    warnings.simplefilter("ignore")
+    scratch = os.environ.get("VF_SCRATCH", "/tmp")
+    logpath = os.path.join(scratch, "real-%d.log" % os.getpid())
+    par = _parallel(spec)
+    nontrivial = False
+    if spec["managed"]:
+        par.__enter__()
+    try:
+        for ci, call in enumerate(spec["calls"]):
+            if os.path.exists(logpath):
+                os.unlink(logpath)
+            base = 1000 * ci
+            where = _where(spec, ci, call)
+            kind, val = _guard(lambda: list(par(_items(call, base, logpath, call.get("gen_input")))), where)
+            if kind == "raise":
+                raise Violation("%s raised %s: %s although no task fails" % (where, type(val).__name__, str(val)[:200]), signature=["real-raises"])
+            want = [("r", base + i, (base + i) % 3) for i in range(call["n"])]
+            if val != want:
+                raise Violation("%s returned %r, sequential loop gives %r" % (where, val[:30], want[:30]), signature=["real-results"])
+            counts = _exec_counts(logpath)
+            if sorted(counts) != [base + i for i in range(call["n"])] or any(c != 1 for c in counts.values()):
+                raise Violation("%s: tasks not executed exactly once: %r" % (where, {k: v for k, v in counts.items() if v != 1} or sorted(counts)[:20]),
+                                signature=["real-exactly-once"])
+            if spec["backend"] != "sequential" and call["n"] >= 2:
+                nontrivial = True
+    finally:
+        if spec["managed"]:
+            par.__exit__(None, None, None)
+        if os.path.exists(logpath):
+            os.unlink(logpath)
+    return {"nontrivial": nontrivial, "classes": ["real", "real-backend=" + spec["backend"], "return_as=" + spec["return_as"]]}
+
+
+# ---- C04 --------------------------------------------------------------------------------------------
+
+def c04_strategy(ctx):
+    @st.composite
+    def calls(draw):
+        out = []
+        for _ in range(draw(st.integers(2, 4))):
+            n = draw(st.integers(1, 20))
+            fail = {}
+            if draw(st.integers(0, 2)) > 0:
+                for idx in draw(st.lists(st.integers(0, n - 1), min_size=1, max_size=2, unique=True)):
+                    fail[str(idx)] = draw(st.sampled_from(["value", "key", "custom", "os"]))
+            out.append({"n": n, "fail": fail, "sleeps": draw(st.lists(st.sampled_from([0, 0, 2, 8]), min_size=1, max_size=4)),
+                        "gen_input": draw(st.booleans())})
+        return out
+    base = _configs(["threading", "loky", "loky", "multiprocessing"], ("list", "list", "generator"))
+    return st.tuples(base, calls()).map(lambda t: {**t[0], "calls": t[1]}).filter(
+        lambda s: not (s["backend"] == "multiprocessing" and s["return_as"] != "list"))
+
+
+def _expected_exc(kind, idx):
+    from vf import tasks
+    e = {"value": ValueError("x", idx), "key": KeyError(idx), "custom": tasks.TaskError("task", idx), "os": OSError(2, "msg-%d" % idx)}[kind]
+    return (type(e).__name__, repr(e.args))
+
+
+def run_c04(spec):
+    warnings.simplefilter("ignore")
+    scratch = os.environ.get("VF_SCRATCH", "/tmp")
+    logpath = os.path.join(scratch, "real-%d.log" % os.getpid())
+    par = _parallel(spec)
+    nontrivial = False
+    prev_failed = False
+    if spec["managed"]:
+        par.__enter__()
+    try:
+        for ci, call in enumerate(spec["calls"]):
+            if os.path.exists(logpath):
+                os.unlink(logpath)
+            base = 1000 * ci
+            where = _where(spec, ci, call)
+            kind, val = _guard(lambda: list(par(_items(call, base, logpath, call.get("gen_input")))), where)
+            fail = {int(k): v for k, v in call["fail"].items()}
+            if fail:
+                if kind != "raise":
+                    raise Violation("%s returned %r instead of raising one of its tasks' exceptions" % (where, val[:10]), signature=["real-swallowed"])
+                allowed = [_expected_exc(k, base + i) for i, k in fail.items()]
+                got = (type(val).__name__, repr(val.args))
+                if got not in allowed:
+                    raise Violation("%s raised %r, its failing tasks raise %r" % (where, got, allowed), signature=["real-wrong-exception"])
+                prev_failed = True
+            else:
+                if kind == "raise":
+                    raise Violation("%s raised %s: %s although nothing fails in it%s" % (where, type(val).__name__, str(val)[:200],
+                                                                                      " (the previous call failed)" if prev_failed else ""),
+                                    signature=["real-clean-call-raises"])
+                want = [("r", base + i, (base + i) % 3) for i in range(call["n"])]
+                if val != want:
+                    raise Violation("%s returned %r, expected %r%s" % (where, val[:30], want[:30], " (the previous call failed)" if prev_failed else ""),
+                                    signature=["real-leftover" if prev_failed else "real-results"])
+                if prev_failed:
+                    nontrivial = True
+                prev_failed = False
+    finally:
+        if spec["managed"]:
+            try:
+                par.__exit__(None, None, None)
+            except Exception:
+                pass
+        if os.path.exists(logpath):
+            os.unlink(logpath)
+    return {"nontrivial": nontrivial, "classes": ["real", "real-backend=" + spec["backend"]]}
+
+
+# ---- C16 ----------------------------------------------------------------------------------------------
+
+def c16_strategy(ctx):
+    call = st.fixed_dictionaries({"n": st.integers(1, 24), "sleeps": st.lists(st.sampled_from([0, 0, 2, 10, 30]), min_size=1, max_size=5),
+                                  "action": st.sampled_from(["exhaust", "exhaust", "close", "drop", "recall"]), "after": st.integers(0, 6)})
+    base = _configs(["threading", "loky", "loky"], ("generator", "generator_unordered"))
+    return st.tuples(base, st.lists(call, min_size=2, max_size=3)).map(lambda t: {**t[0], "calls": t[1]})
+
+
+def run_c16(spec):
+    warnings.simplefilter("ignore")
+    scratch = os.environ.get("VF_SCRATCH", "/tmp")
+    logpath = os.path.join(scratch, "real-%d.log" % os.getpid())
+    par = _parallel(spec)
+    ordered = spec["return_as"] == "generator"
+    nontrivial = False
+    if spec["managed"]:
+        par.__enter__()
+    try:
+        for ci, call in enumerate(spec["calls"]):
+            if os.path.exists(logpath):
+                os.unlink(logpath)
+            base = 1000 * ci
+            where = _where(spec, ci, call) + " action=%s after=%d" % (call["action"], call["after"])
+            want = [("r", base + i, (base + i) % 3) for i in range(call["n"])]
+            holder = {}
+            action = call["action"] if ci < len(spec["calls"]) - 1 else "exhaust"
+            k = min(call["after"], call["n"])
+            if action == "recall":
+                # the last task sleeps 0.6 s and nothing is consumed before the overlapping call (with batching, consuming
+                # even one result may need the last batch): the run is certainly unfinished at that moment
+                k = 0
+                call = dict(call, sleeps=[0] * (call["n"] - 1) + [600])
+
+            def start():
+                holder["g"] = par(_items(call, base, logpath, True))
+            kind, val = _guard(start, where + " [call]")
+            if kind == "raise":
+                raise Violation("%s raised %s: %s when called (previous run finished or was abandoned)" % (where, type(val).__name__, str(val)[:200]),
+                                signature=["real-call-raises"])
+            got = []
+
+            def take():
+                for _ in range(k):
+                    got.append(next(holder["g"]))
+            kind, val = _guard(take, where + " [next x%d]" % k)
+            if kind == "raise":
+                raise Violation("%s: next() raised %s: %s" % (where, type(val).__name__, str(val)[:200]), signature=["real-next-raises"])
+            if action == "recall":
+                kind, val = _guard(lambda: par(_items({"n": 2, "sleeps": [0]}, base + 900, logpath, False)), where + " [overlapping call]")
+                if kind != "raise" or not isinstance(val, RuntimeError):
+                    raise Violation("%s: a call during the unfinished run %s instead of raising RuntimeError"
+                                    % (where, "returned" if kind == "ok" else "raised %s" % type(val).__name__), signature=["real-recall"])
+                nontrivial = True
+                action = "exhaust"
+            if action == "exhaust":
+                kind, val = _guard(lambda: got.extend(list(holder["g"])), where + " [exhaust]")
+                if kind == "raise":
+                    raise Violation("%s: exhausting the generator raised %s: %s" % (where, type(val).__name__, str(val)[:200]), signature=["real-next-raises"])
+                if (got != want) if ordered else (sorted(got) != sorted(want)):
+                    raise Violation("%s: generator delivered %r, expected %s%r" % (where, got[:30], "" if ordered else "(any order) ", want[:30]),
+                                    signature=["real-order" if ordered else "real-exactly-once"])
+            elif action in ("close", "drop"):
+                if ordered and got != want[:len(got)]:
+                    raise Violation("%s: generator delivered %r, expected the prefix %r" % (where, got, want[:len(got)]), signature=["real-order"])
+                if action == "close":
+                    kind, val = _guard(lambda: holder["g"].close(), where + " [close]")
+                else:
+                    def drop():
+                        holder.clear()
+                        gc.collect()
+                    kind, val = _guard(drop, where + " [drop]")
+                if kind == "raise":
+                    raise Violation("%s: abandoning the generator raised %s: %s" % (where, type(val).__name__, str(val)[:200]), signature=["real-abandon-raises"])
+                if k < call["n"]:
+                    nontrivial = True
+            holder.clear()
+            gc.collect()
+    finally:
+        if spec["managed"]:
+            try:
+                par.__exit__(None, None, None)
+            except Exception:
+                pass
+        if os.path.exists(logpath):
+            os.unlink(logpath)
+    return {"nontrivial": nontrivial, "classes": ["real", "real-backend=" + spec["backend"], "return_as=" + spec["return_as"]]}
+
